@@ -21,5 +21,6 @@ from .misc import (
     convert_to_int,
     LogFilter,
     convert_unit,
+    convert_to_unsigned,
     get_dtype,
 )
